@@ -96,7 +96,10 @@ func (l *lexed) rebuild(ins map[int]string, repl map[int]string) string {
 var layoutInserts = []struct {
 	name, text string
 	newline    bool
-}{{"blank", " ", false}, {"tab", "\t", false}, {"block-comment", " /*c*/ ", false}, {"line-comment", " //c\n", true}, {"newline", "\n", true}, {"crlf", "\r\n", true}}
+}{{"blank", " ", false}, {"tab", "\t", false}, {"block-comment", " /*c*/ ", false}, {"line-comment", " //c\n", true}, {"newline", "\n", true}, {"crlf", "\r\n", true},
+	// comments of other shapes: empty, runs of stars of both parities, a star and a slash inside, several lines
+	{"block-comment-empty", "/**/", false}, {"block-comment-stars", " /***/ /** c **/ /**** c ***/ ", false}, {"block-comment-inner", " /* * / // */ ", false},
+	{"block-comment-lines", " /* a\n * b\n **/ ", true}, {"line-comment-shapes", " //\n // /* \n//*/\n", true}}
 
 func digitVariants(lex string) []string {
 	return []string{toScript(model.ToASCII(lex), 0), toScript(model.ToASCII(lex), 1), toScript(model.ToASCII(lex), 2)}
@@ -484,14 +487,14 @@ func C18(c *fw.Ctx) {
 		}
 		inVar := lx.varGaps()
 		// (a) layout
-		for _, li := range layoutInserts {
+		for lii, li := range layoutInserts {
 			all := map[int]string{}
 			for gi := 0; gi <= len(lx.toks); gi++ {
 				if li.newline && inVar[gi] {
 					continue
 				}
 				all[gi] = li.text
-				if it.single {
+				if it.single && lii < 6 { // the comment-shape inserts go into all gaps at once only
 					check("layout-"+li.name, fmt.Sprintf("gap %d", gi), lx.rebuild(map[int]string{gi: li.text}, nil), nil)
 				}
 			}
